@@ -592,11 +592,11 @@ func propDescriptor(t *rapid.T) {
 }
 
 func TestComparatorSorts(t *testing.T) {
-	vlib.Check(t, "comparator", 6000, 60000, propComparator)
+	vlib.Check(t, "comparator", 12000, 120000, propComparator)
 }
 
 func TestDescriptorSorts(t *testing.T) {
-	vlib.Check(t, "descriptor", 6000, 60000, propDescriptor)
+	vlib.Check(t, "descriptor", 12000, 120000, propDescriptor)
 }
 
 // ---------------------------------------------------------------- SortOrdered*
@@ -695,5 +695,5 @@ func propOrdered(t *rapid.T) {
 }
 
 func TestOrderedSorts(t *testing.T) {
-	vlib.Check(t, "ordered", 3000, 30000, propOrdered)
+	vlib.Check(t, "ordered", 6000, 60000, propOrdered)
 }
